@@ -123,6 +123,11 @@ def layout(x, kind):
         big[1:-1] = x
         v = big[1:-1]
         return v, {"arg": v, "arg_base": big}
+    if kind == "noncontig" and x.dim() == 4 and x.shape[0] % 2 == 1:
+        # channels-last storage (NHWC data handed over as an NCHW tensor): permute(0, 2, 3, 1).reshape(...) of it is a VIEW of the
+        # caller's tensor, so anything done in place to such a "flattened copy" lands in the argument
+        v = x.contiguous(memory_format=torch.channels_last)
+        return v, {"arg": v}
     if kind == "noncontig" and x.dim() >= 2:
         v = x.transpose(0, 1).contiguous().transpose(0, 1)
         return v, {"arg": v}
